@@ -5,6 +5,7 @@ YAML Path processor based on ruamel.yaml.
 Copyright 2018, 2019, 2020, 2021, 2022 William W. Kimball, Jr. MBA MSIS
 """
 from collections import OrderedDict
+from copy import copy
 from typing import Any, Dict, Generator, List, Union
 
 from ruamel.yaml.compat import ordereddict as ryod
@@ -1667,13 +1668,12 @@ class Processor:
             })
 
         # If LHS in RHS, delete it
-        rem_dels = []
-        rem_idx = 0
         updated_coords: List[NodeCoords] = []
         for lhs in lhs_ncs:
             unwrapped_lhs = lhs.unwrapped_node
             deepest_lhs = lhs.deepest_node_coord
             append_node = True
+            rem_keys: List[Any] = []
 
             if lhs.wraps_a(dict):
                 if unwrapped_lhs in rem_data:
@@ -1687,8 +1687,11 @@ class Processor:
                         # to be matched, not its individual key-value pairs.
                         continue
                     for key, val in rhs.items():
-                        if key in unwrapped_lhs and unwrapped_lhs[key] == val:
-                            rem_dels.append((rem_idx, key))
+                        if (key in unwrapped_lhs
+                            and unwrapped_lhs[key] == val
+                            and key not in rem_keys
+                        ):
+                            rem_keys.append(key)
             elif lhs.wraps_a(list):
                 if unwrapped_lhs in rem_data or rem_data == unwrapped_lhs:
                     continue
@@ -1697,10 +1700,20 @@ class Processor:
                     continue
 
             if append_node:
+                if rem_keys:
+                    # A query must leave the document as it was:  the
+                    # matched pairs are removed from a shallow copy of the
+                    # Hash -- a virtual node like every other Collector
+                    # result -- which takes the place of the Hash in the
+                    # result, at the same coordinates.
+                    reduced_lhs = copy(unwrapped_lhs)
+                    for key in rem_keys:
+                        del reduced_lhs[key]
+                    deepest_lhs = NodeCoords(
+                        reduced_lhs, deepest_lhs.parent,
+                        deepest_lhs.parentref, deepest_lhs.path,
+                        deepest_lhs.ancestry, deepest_lhs.path_segment)
                 updated_coords.append(deepest_lhs)
-                rem_idx += 1
-        for idx, key in rem_dels:
-            del updated_coords[idx].deepest_node_coord.node[key]
 
         self.logger.debug((
             "Resulting data:"),
